@@ -10,7 +10,7 @@ ASSUME = [
     "an entity that was removed is not created again (feature numbers are counted per entity object)",
     "adding a feature or function to an entity that is already registered is not announced by a notification (no property asks for one); the next discovery read shows it",
 ]
-ALL = ["newent", "addfeat", "addfn", "addent", "rement", "read"]
+ALL = ["newent", "addfeat", "addfn", "addent", "rement", "read", "setdesc"]
 
 
 def run(prop, tier, seed, replay=None):
@@ -36,7 +36,7 @@ def run(prop, tier, seed, replay=None):
                 raise Inconclusive("LocalTree exhaustive check failed:\n" + out[-2500:])
             log("[%s] spec check: %d distinct states, %d transitions" % (prop, st["distinct"], st["generated"]))
             behs = []
-            for acts, ml in ([(ALL, 5), (["newent", "addfeat", "addent", "rement", "read"], 6)] if quick else [(ALL, 6), (["newent", "addfeat", "addent", "rement", "read"], 8)]):
+            for acts, ml in ([(ALL, 5), (["newent", "addfeat", "setdesc", "addent", "read"], 6), (["newent", "addfeat", "addent", "rement", "read"], 6)] if quick else [(ALL, 6), (["newent", "addfeat", "addent", "rement", "read"], 8)]):
                 c = {"MaxLen": ml, "MaxFeat": 3 if len(acts) < 6 else 2, "Acts": set(acts)}
                 code, out = run_tlc("LocalTreeMC.tla", cfg_text("Spec", c, view="View", action_constraints=["Emit"]), timeout=3000, workers=1, heap="8g")
                 if not tlc_ok(code, out):
